@@ -1,6 +1,7 @@
 import Vegeta.Go.Proto
 import Vegeta.Model.ParserGuards
 import Vegeta.Driver.C19
+import Vegeta.Model.RoundRobin
 /-! Driver operations of property C16 (ops are named `c16.<name>`); the flag parsers are
 served by the C19 operations (`c19.*`), the bucket parser also by `hist.unmarshal`. -/
 namespace Vegeta.Driver.C16
@@ -75,6 +76,22 @@ def handle (op : String) (args : List String) : Option String :=
     | .ok bs => pure ("ok " ++ showInts bs)
     | .error _ => pure "err"
     | .panic => pure "panic"
+  | "c16.rrzero" => do
+    -- k calls of NewRoundRobinDecoder() over zero decoders
+    let (k, _) ← (nat).run args
+    let sts := (Vegeta.Model.RoundRobin.calls k ({ decs := [], seq := 0 } : Vegeta.Model.RoundRobin.RR Nat)).1
+    pure (" ".intercalate (sts.map fun st => match st with
+      | .got _ _ => "got"
+      | .err e => s!"err{e}"
+      | .nothing => "nothing"))
+  | "c16.assemble" => do
+    -- one flag per file argument: was a decoder detected for it? -> number of decoders handed to the combiner
+    let (oks, _) ← (listOf bool).run args
+    let names : List Bytes := (List.range oks.length).map fun i => [i]
+    let detect : Bytes → Option Nat := fun f => if oks.getD (f.headD 0) false then some (f.headD 0) else none
+    match commandDecoders detect names with
+    | some ds => pure s!"decoders {ds.length}"
+    | none => pure "err"
   | _ => none
 
 end Vegeta.Driver.C16
